@@ -616,15 +616,15 @@ package syntax
 // Sibling calls inherit the SAME slice, so the extension must never be written into the
 // inherited slice's backing array (not even into its spare capacity): one sibling's condition
 // would replace another's.
-//@ func syntax.resolveDisableExp property C03
+//@ func syntax.resolveDisableExp property C03 C01
 //@   ensures @inputuntouched forall j :: 0 <= j && j < cap(disable) ==> disable[j] == old(disable[j])
 //@   loop 1 invariant forall j :: 0 <= j && j < cap(disable) ==> disable[j] == old(disable[j])
 //@   loop 2 invariant forall j :: 0 <= j && j < cap(disable) ==> disable[j] == old(disable[j])
 //@   loop 3 invariant forall j :: 0 <= j && j < cap(disable) ==> disable[j] == old(disable[j])
-//@ func syntax.resolveDisableArray property C03
+//@ func syntax.resolveDisableArray property C03 C01
 //@   ensures @inputuntouched forall j :: 0 <= j && j < cap(disable) ==> disable[j] == old(disable[j])
 //@   loop 1 invariant forall j :: 0 <= j && j < cap(disable) ==> disable[j] == old(disable[j])
-//@ func syntax.resolveDisableMap property C03
+//@ func syntax.resolveDisableMap property C03 C01
 //@   ensures @inputuntouched forall j :: 0 <= j && j < cap(disable) ==> disable[j] == old(disable[j])
 //@   loop 1 invariant forall j :: 0 <= j && j < cap(disable) ==> disable[j] == old(disable[j])
 //@   loop 2 invariant forall j :: 0 <= j && j < cap(disable) ==> disable[j] == old(disable[j])
